@@ -55,7 +55,10 @@ def job_structure(cls, v, timeout_ms):
             return [("C03:constructs-without-error", [], z3.BoolVal(False))]
         L = r.value
         x = SArr.input("x", L.ishape)
-        got = L.apply(x)
+        try:
+            got = L.apply(x)
+        except (snp.ModelledError, ValueError, RuntimeError) as e:
+            return [("C03:apply-without-error(%s)" % type(e).__name__, [], z3.BoolVal(False))]
         want = expected(lin, L, cls, v, x)
         if want is None:
             return []
@@ -232,8 +235,23 @@ def jobs(tier):
 
 
 def replay_request(res):
-    if "/linop/" in res["name"] or "/algebra/" in res["name"]:
+    if "/linop/" in res["name"]:
         return linops.linop_replay_request("C03", res)
+    if "/algebra/" in res["name"]:
+        rq = linops.linop_replay_request("C03", res)
+        rq["args"]["props"] = ["C03", "C03alg"]
+        return rq
+    if "_params/" in res["name"]:
+        m = res.get("model") or {}
+        fn = "_hstack_params" if "_hstack_params" in res["name"] else "_vstack_params"
+        inst = res["meta"].get("instance", "")
+        nsh, rank = int(inst.split("operands=")[1].split(",")[0]), int(inst.split("rank=")[1])
+        shapes = [[max(1, min(9, model_int(m, "s%d_%d" % (j, d), 2))) for d in range(rank)] for j in range(nsh)]
+        return dict(fn="linop.stack_params", args=dict(which=fn, shapes=shapes, axis=model_int(m, "axis", 0)))
+    if "/reject/" in res["name"]:
+        m = res.get("model") or {}
+        return dict(fn="linop.reject", args=dict(kind=res["meta"].get("instance"), a=model_int(m, "a", 2), b=model_int(m, "b", 3),
+                                                 c=model_int(m, "c", 3), d=model_int(m, "d", 2)))
     return None
 
 
